@@ -26,7 +26,7 @@ RULE = (
     "TLVs (empty values, truncated values, unknown tags, selector changes) and BF2 instruction edits (instructions before any data, repeated REBOOT, unknown protocols, malformed "
     "parameters); (2) coverage-guided fuzzing with atheris/libFuzzer of the same targets through a byte->(structured case) data-provider layer (tools/fuzz_c14.py; fixed -runs/-seed per shard, empty corpus), (3) unstructured random text. "
     "Oracle: the call returns, or raises a bec2format FormatError subclass or a ValueError subclass; anything else is bucketed by (exception type, repo module, function of the "
-    "innermost repository frame) and reported per bucket; after every call the crypto registry, AUTH_BLOCK_CLS_MAP and the module-level tables are compared with a snapshot; a "
+    "innermost repository frame) and reported per bucket; after every call the crypto registry, AUTH_BLOCK_CLS_MAP, the module-/class-level tables and the mutable default-argument values of all library functions are compared with a snapshot; a "
     "SIGALRM watchdog (10 s, inputs <= 64 KiB) re-runs a slow input in a fresh process (60 s) before calling it a hang. "
     "Non-trivial = the input reaches beyond the text/hex front end (signature intact per the model, or a BF2 text with >= 1 data line); distinct by (target, input hash); "
     "for the atheris part: the number of coverage-distinct corpus entries libFuzzer kept."
@@ -58,9 +58,39 @@ def _stable(v, depth=0):
     return "<%s>" % type(v).__name__
 
 
+def _functions_of(mod, mname):
+    """(qualified name, function) for every module-level function and every method of every class defined in the module: their DEFAULT
+    ARGUMENT values are process-global state too (a mutable default that a call fills is shared by all later calls)"""
+    import types as _types
+
+    def unwrap(v):
+        if isinstance(v, (classmethod, staticmethod)):
+            return v.__func__
+        if isinstance(v, property):
+            return v.fget
+        return v if isinstance(v, _types.FunctionType) else None
+
+    for name, val in sorted(vars(mod).items()):
+        f = unwrap(val)
+        if f is not None and getattr(f, "__module__", None) == mname:
+            yield "%s.%s" % (mname, name), f
+        elif isinstance(val, type) and getattr(val, "__module__", None) == mname:
+            for an, av in sorted(vars(val).items()):
+                f = unwrap(av)
+                if f is not None:
+                    yield "%s.%s.%s" % (mname, name, an), f
+
+
+def _default_values(f):
+    for i, v in enumerate(f.__defaults__ or ()):
+        yield "default[%d]" % i, v
+    for k, v in sorted((f.__kwdefaults__ or {}).items()):
+        yield "kwdefault[%s]" % k, v
+
+
 def _tables_snapshot():
     """GENERIC snapshot of library-global state: every module-level and class-level container / constant of every bec2format
-    module (dicts, lists, sets, tuples, bytes, numbers, strings; classes by identity), rendered order-independently."""
+    module and every mutable default argument value of its functions and methods (dicts, lists, sets, tuples, bytes, numbers, strings; classes by identity), rendered order-independently."""
     import sys as _sys
 
     out = []
@@ -77,6 +107,10 @@ def _tables_snapshot():
                         continue
                     if isinstance(av, (dict, list, set, frozenset, tuple, bytes, bytearray, int, str, float)):
                         out.append("%s.%s.%s=%s" % (mname, name, an, _stable(av)))
+        for qn, f in _functions_of(mod, mname):
+            for dn, dv in _default_values(f):
+                if isinstance(dv, (dict, list, set, bytearray)):
+                    out.append("%s(%s)=%s" % (qn, dn, _stable(dv)))
     return "\n".join(out)
 
 
@@ -94,6 +128,10 @@ def _mutable_globals():
                 for an, av in vars(val).items():
                     if not an.startswith("__") and isinstance(av, (dict, list, set)):
                         yield (mname, name, an), av
+        for qn, f in _functions_of(mod, mname):
+            for dn, dv in _default_values(f):
+                if isinstance(dv, (dict, list, set)):
+                    yield (qn, dn), dv
 
 
 _TABLES0 = _tables_snapshot()
